@@ -273,13 +273,13 @@ func runS(c SCase) core.Result {
 			adopted = true
 		case <-tor.NotifyStop():
 			lab["rejected"] = true
-		case <-time.After(2500 * time.Millisecond):
+		case <-time.After(map[bool]time.Duration{true: 10 * time.Second, false: 2500 * time.Millisecond}[len(c.MI.Muts) == 0]):
 			lab["not-adopted"] = true
 		}
 		if !adopted {
 			if exp.sane && len(c.MI.Muts) == 0 && (c.MaxSize == 0 || len(infoBytes) <= c.MaxSize) && (c.MaxPieces == 0 || exp.npieces <= int64(c.MaxPieces)) && len(infoBytes) > 0 {
 				st := tor.Stats()
-				return fail("a valid, unmodified info dictionary within the limits, served by a peer, was not adopted within 2.5 s (status %v, peers %d)", st.Status, st.Peers.Total)
+				return fail("a valid, unmodified info dictionary within the limits, served by a peer, was not adopted within 10 s (status %v, peers %d)", st.Status, st.Peers.Total)
 			}
 			return finish()
 		}
